@@ -578,22 +578,28 @@ func (e *Engine) initOnlyGlobal(g *ssa.Global) (ssa.Value, bool) {
 
 // rootIsLocalAlloc: the address/slice v designates memory allocated by the function itself.
 func rootIsLocalAlloc(v ssa.Value, depth int) bool {
-	if depth > 8 {
-		return false
+	return rootIsLocal(v, map[ssa.Value]bool{})
+}
+
+func rootIsLocal(v ssa.Value, seen map[ssa.Value]bool) bool {
+	if seen[v] {
+		return true // cycle through a loop phi: decided by the other edges
 	}
+	seen[v] = true
+	depth := 0
 	switch x := v.(type) {
 	case *ssa.Alloc, *ssa.MakeSlice:
 		return true
 	case *ssa.Const:
 		return x.Value == nil // nil slice: append allocates
 	case *ssa.FieldAddr:
-		return rootIsLocalAlloc(x.X, depth+1)
+		return rootIsLocal(x.X, seen)
 	case *ssa.IndexAddr:
-		return rootIsLocalAlloc(x.X, depth+1)
+		return rootIsLocal(x.X, seen)
 	case *ssa.Slice:
-		return rootIsLocalAlloc(x.X, depth+1)
+		return rootIsLocal(x.X, seen)
 	case *ssa.ChangeType:
-		return rootIsLocalAlloc(x.X, depth+1)
+		return rootIsLocal(x.X, seen)
 	case *ssa.Convert:
 		// []byte(string) allocates
 		if _, ok := x.Type().Underlying().(*types.Slice); ok {
@@ -607,15 +613,16 @@ func rootIsLocalAlloc(v ssa.Value, depth int) bool {
 			if e == v {
 				continue
 			}
-			if !rootIsLocalAlloc(e, depth+1) {
+			if !rootIsLocal(e, seen) {
 				return false
 			}
 		}
 		return true
 	case *ssa.Call:
 		if b, ok := x.Call.Value.(*ssa.Builtin); ok && b.Name() == "append" {
-			return rootIsLocalAlloc(x.Call.Args[0], depth+1)
+			return rootIsLocal(x.Call.Args[0], seen)
 		}
 	}
+	_ = depth
 	return false
 }
